@@ -201,32 +201,39 @@ def run(chk, facts):
             if v[0] == "bin" and v[1] == "+":
                 return sorted(terms(v[2]) + terms(v[3]), key=repr)
             return [v]
-        # the caret after a token is one function of (caret before, token): Token::end.  A printed form without a line break
-        # advances the column by its width; one with line breaks ends on its last line: line + number of '\n' (the lexer's own
-        # line rule, R-C19-4 lexer:newline-at-LF-and-CRLF), column = 1 + what follows the last break
+        # the caret after a token is one function of (caret before, token): Token::end.  It is folded (rules/smalleval.py) over printed forms that
+        # cover its branches - without a line break, with one, with two, ending in one, consisting of one, with a non-ASCII character - from a
+        # start caret in the middle of a line: without a break it ends `characters` columns after its start, with breaks on line + number of
+        # '\n' (the lexer's own line rule, R-C19-4 lexer:newline-at-LF-and-CRLF) at column 1 + characters after the last break
+        from .smalleval import SmallEval, NoEval
         en = syn.one_fn("end", impl_of="Token")
-        ev_ = se.ev(en["body"], {"self": ("var", "self"), "start": ("var", "start")})
-        splits = [n for n in walk(en["body"]) if n.get("k") == "mcall" and n["m"] == "rsplit_once" and n["args"] and strip(n["args"][0]).get("k") == "lit" and strip(n["args"][0])["v"] == "\n"]
-        ok_split = len(splits) == 1 and ev_[0] == "ite" and ev_[1].startswith("some(") and "rsplit_once" in ev_[1]
-        ok_none = ok_split and ev_[3] == ("mcall", ("var", "start"), "offset_pos", [meas(("var", "self"))])
-        ok_some = False
-        why_e = symeval.show(ev_)[:160]
-        if ok_split:
-            # names bound by the Some((a, b)) pattern
-            pats = [a_["pat"] for n in walk(en["body"]) if n.get("k") == "match" for a_ in n["arms"] if src(a_["pat"]).startswith("Some")] + \
-                   [n["c"]["pat"] for n in walk(en["body"]) if n.get("k") == "if" and n["c"].get("k") == "let" and src(n["c"]["pat"]).startswith("Some")]
-            names = [p_["name"] for p_ in walk(pats[0]) if p_.get("k") == "pident"] if pats else []
-            sv = ev_[2]
-            if len(names) == 2 and ((sv[0] == "call" and sv[1] in ("CaretPos::new",) and len(sv[2]) == 2) or (sv[0] == "core" and sv[1] == "CaretPos")):
-                line_v, pos_v = (sv[2][0], sv[2][1]) if sv[0] == "call" else (sv[2].get("line"), sv[2].get("pos"))
-                want_line = sorted([("var", "start.line"), ("mcall", ("mcall", ("var", names[0]), "matches", [("str", "\n")]), "count", []), ("int", "1")], key=repr)
-                want_pos = sorted([meas(("var", names[1])), ("int", "1")], key=repr)
-                ok_some = line_v is not None and pos_v is not None and terms(line_v) == want_line and terms(pos_v) == want_pos
-        chk.ob("R-C18-2", "Token::end:no-break", ok_none, "a token without a line break ends `width` columns after its start" if ok_none else
-               f"Token::end: a token without a line break no longer ends at start.offset_pos(<width of the printed form>): `{why_e}`", facts.loc_of(en))
-        chk.ob("R-C18-2", "Token::end:line-breaks", ok_some, "a token with line breaks ends on line + (number of \\n), at column 1 + what follows the last break" if ok_some else
-               f"Token::end: the end of a token that spans lines is not (line + number of line breaks, 1 + length of its last line): `{why_e}`: a multi-line "
-               "or empty string moves later line numbers or columns", facts.loc_of(en))
+        methods_ = {}
+        for f_ in syn.fns:
+            if f_.get("impl_of") and f_.get("body") and not f_.get("impl_trait") and f_["mod"] in ("common::position", "parse::lex::token"):
+                methods_[(f_["impl_of"].strip(), f_["name"])] = f_
+        cases_e = [("ab", (3, 7)), ("\u00e9\"x", (3, 8)), ("a\nbc", (4, 3)), ("a\n\nbcd", (5, 4)), ("ab\n", (4, 1)), ("\n", (4, 1)), ("", (3, 5))]
+        ev_e = SmallEval(methods={"to_string": lambda tok: ("text", tok[1]) if isinstance(tok, tuple) and tok[0] == "tok" else tok})
+        ev_e.local_methods = methods_
+        bad_none, bad_some = None, None
+        try:
+            for text_, (wl, wp) in cases_e:
+                r_ = ev_e.call(en, [("tok", text_), {"__struct__": "CaretPos", "line": 3, "pos": 5}])
+                got_ = (r_.get("line"), r_.get("pos")) if isinstance(r_, dict) else r_
+                if got_ != (wl, wp):
+                    msg_ = f"a token printed as {text_!r} that starts at 3:5 ends at {got_}, its characters end at {wl}:{wp}"
+                    if "\n" in text_:
+                        bad_some = bad_some or msg_
+                    else:
+                        bad_none = bad_none or msg_
+        except NoEval as ex:
+            bad_none = bad_some = f"could not be evaluated ({ex})"
+        chk.ob("R-C18-2", "Token::end:no-break", bad_none is None, "a token without a line break ends `characters` columns after its start" if bad_none is None else
+               f"Token::end: {bad_none}", facts.loc_of(en))
+        chk.ob("R-C18-2", "Token::end:line-breaks", bad_some is None, "a token with line breaks ends on line + (number of \\n), at column 1 + what follows the last break" if bad_some is None else
+               f"Token::end: {bad_some}: a multi-line or empty string moves later line numbers or columns", facts.loc_of(en))
+        unc_e = ev_e.uncovered()
+        chk.ob("R-C18-2", "Token::end:fold-covers-every-branch", not unc_e, "the printed forms reach every branch of Token::end and the helpers it calls" if not unc_e else
+               f"the printed forms do not reach {len(unc_e)} branch(es), e.g. {unc_e[0]}", facts.loc_of(en))
         st = syn.one_fn("token", impl_of="State")
         s_ = src(st["body"], -30).replace(" ", "")
         # on every path that pushes the token, the caret is advanced exactly once, by `token.end(self.pos)`, after the push
